@@ -300,8 +300,11 @@ func VerifC05_noOverdraw() {
 
 // VerifC04_authorised: an account is debited only by transfers that name it as source, the
 // sender is debited by at most value + fee, and third parties only through contract transfers.
-func VerifC04_authorised() {
-	st := verifRunStep(vAllTypes, 2)
+func VerifC04_authorised()  { verifC04(2) }
+func VerifC04_authorised1() { verifC04(1) }
+
+func verifC04(maxTransfers int) {
+	st := verifRunStep(vAllTypes, maxTransfers)
 	if st.err != nil {
 		return
 	}
